@@ -1074,7 +1074,32 @@ def _native_histories(tier="quick", seed=0, only_templates=False):
         v = validate_prs(prs)
         return ("bubble chart, series.marker.size = 7: %s" % v[0][1][:1]) if v else None
 
-    for sig, fn in (("chart:marker:not-expected", scenario_bubble_marker),):
+    def scenario_ole_arguments():
+        """add_ole_object over every combination of given / omitted optional arguments (own icon or the stock one, size, icon size)"""
+        import itertools as _it
+
+        from pptx.enum.shapes import PROG_ID
+
+        for icon, w_, h_, iw_, ih_ in _it.product((None, "own"), (None, 100, 914400), (None, 77, 685800), (None, 965200, 300001), (None, 609600, 200001)):
+            prs = Presentation()
+            sl = prs.slides.add_slide(prs.slide_layouts[6])
+            kw = {}
+            if icon:
+                kw["icon_file"] = io.BytesIO(_png())
+            if iw_ is not None:
+                kw["icon_width"] = iw_
+            if ih_ is not None:
+                kw["icon_height"] = ih_
+            try:
+                sl.shapes.add_ole_object(io.BytesIO(b"PK\x03\x04fake"), PROG_ID.XLSX, 0, 0, w_, h_, **kw)
+            except (ValueError, TypeError):
+                continue
+            v = validate_prs(prs)
+            if v:
+                return "add_ole_object(width=%r, height=%r, %s): %s" % (w_, h_, ", ".join("%s=%s" % (k_, "<png>" if k_ == "icon_file" else v_) for k_, v_ in kw.items()), v[0][1][:1])
+        return None
+
+    for sig, fn in (("chart:marker:not-expected", scenario_bubble_marker), ("slide:oleObj:arguments", scenario_ole_arguments)):
         w = fn()
         rec("C03.native.invalid_xml[%s]" % sig, w)
         if w:
